@@ -77,6 +77,12 @@ def run_sim(binary, param_text, args, threads=1, timeout=120, trace=True, env=No
     # --dirty: a tree with uncommitted changes must still run (the code refuses by default)
     cmd = [binary, "--params", "run.param", "--threads", str(threads), "--dirty"] + list(args)
     timed_out = False
+    # a time limit is a statement about the code, not about the machine: on an oversubscribed machine
+    # (other checks running at the same time) the limit grows with the load per core
+    try:
+        timeout = timeout * max(1.0, os.getloadavg()[0] / (os.cpu_count() or 1))
+    except OSError:
+        pass
     try:
         p = subprocess.run(cmd, cwd=d, env=e, stdout=subprocess.PIPE, stderr=subprocess.STDOUT, text=True, timeout=timeout)
         rc, log = p.returncode, p.stdout
